@@ -88,7 +88,6 @@ func checkStructure(o *Obs, t *tree.Tree, ctx string) bool {
 	return true
 }
 
-
 func runC03(c *Ctx, idx int, o *Obs) {
 	r := c.Rng("C03", idx)
 	maxTips, steps := 200, 25
